@@ -2906,3 +2906,33 @@ M("C05", "handoff-crossed-rotate", WALK,
   "    previous_puml_node, previous_node_class = handle_rotate_path(\n            puml_graph, logic_list, previous_puml_node, previous_node_class\n        )",
   "    previous_puml_node, previous_node_class = handle_rotate_path(\n            puml_graph, logic_list, previous_node_class, previous_puml_node\n        )",
   "R5.23", "model node and diagram node crossed")
+
+# ---- R5.24 dummy break beneath nested XOR starts
+M("C05", "pushdown-break-on-other-branches", PG,
+  "                if out_node == dummy_break_event_node:\n                    graph.remove_node(dummy_break_event_node)",
+  "                if out_node != dummy_break_event_node:\n                    graph.remove_node(dummy_break_event_node)",
+  "R5.24", "the BREAK goes to the branches that do not break")
+M("C05", "pushdown-copy-loses-body", PG,
+  "                    event_types=event_node.event_types,\n                    sub_graph=event_node.sub_graph,\n                    parent_graph_node=event_node.parent_graph_node,\n                )\n                if out_node == dummy_break_event_node:",
+  "                    event_types=event_node.event_types,\n                    parent_graph_node=event_node.parent_graph_node,\n                )\n                if out_node == dummy_break_event_node:",
+  "R5.24", "a copied loop node has no body")
+M("C05", "pushdown-old-edge-kept", PG,
+  "                    graph.remove_edge(operator_node, out_node)\n",
+  "",
+  "R5.24", "the branch is reachable both directly and behind the copy")
+M("C05", "pushdown-accepts-and-ancestor", PG,
+  "                PUMLOperatorNodes.START_AND,\n                PUMLOperatorNodes.END_AND,",
+  "                PUMLOperatorNodes.END_AND,",
+  "R5.24", "a break beneath an AND start is pushed down as if it were an XOR")
+M("C05", "pushdown-event-not-bridged", PG,
+  "    graph.remove_node(event_node)\n    graph.add_puml_edge(event_node_in_node, event_node_out_node)",
+  "    graph.remove_node(event_node)",
+  "R5.24", "the line is cut where the breaking event stood")
+T("C05", "twin-pushdown-refused-list-reordered", PG,
+  "                PUMLOperatorNodes.START_AND,\n                PUMLOperatorNodes.END_AND,\n                PUMLOperatorNodes.START_OR,\n                PUMLOperatorNodes.END_OR,\n                PUMLOperatorNodes.END_XOR",
+  "                PUMLOperatorNodes.END_XOR,\n                PUMLOperatorNodes.START_AND,\n                PUMLOperatorNodes.START_OR,\n                PUMLOperatorNodes.END_AND,\n                PUMLOperatorNodes.END_OR",
+  "membership list in another order")
+T("C05", "twin-pushdown-continue", PG,
+  "            if out_node == child_operator:\n                pass\n            else:\n                new_event_node = graph.create_event_node(",
+  "            if out_node != child_operator:\n                new_event_node = graph.create_event_node(",
+  "negated test instead of pass / else")
